@@ -114,6 +114,9 @@ def judge(s, mon, sc):
     if sc["cuser"] != sc["user"] or sc["cpw"] != sc["pw"]:
         cls.append("case")
         mon.count("case_variant_typed")
+    if sc.get("lifecycle"):
+        cls.append("lc")
+        mon.count("lifecycle:" + sc["lifecycle"])
     if sc.get("salt"):
         cls.append("bsalt")
     if sc.get("a") or sc.get("b"):
@@ -149,6 +152,11 @@ def scenario(rnd, kind):
     pw = rand_cred(rnd)
     sc = {"user": user, "pw": pw, "cuser": case_variant(rnd, user), "cpw": case_variant(rnd, pw),
           "reimport": rnd.random() < 0.5}
+    if rnd.random() < 0.05:
+        sc["noise"] = rnd.getrandbits(16)
+    r = rnd.random()
+    if r < 0.06:
+        sc["lifecycle"] = rnd.choice(["use_clone_drop_original", "drop_clone_use_original", "clone_fails_first"])
     if kind == "bsalt":
         sc["salt"] = rnd.choice(BOUNDARY_SALTS).hex()
     elif kind == "bkeys":
@@ -206,6 +214,20 @@ def worker(idx, nworkers, tier, seed, extra):
                           "reimport": False}
                     judge(ll_login(w, sc), mon, sc)
                     mon.count("exhaustive_case_variants")
+        # several threads of ONE process log in at the same time (state shared between sessions or threads, or the
+        # n-th login of a process behaving differently, would show here); worker 1 runs more than 2^16 logins in its process
+        if idx in (1, 2) and tier != "miri":
+            from sessions import parse_transcripts, judge_transcript
+            per = {1: 4200, 2: 600}[idx] if tier == "quick" else {1: 8400, 2: 4200}[idx]
+            ev = w.call("mt_logins", n=per, threads=16, tag=seed * 10 + idx)
+            rp = {"engine": "wsx", "kind": "raw", "commands": [ev.cmd]}
+            if ev.status != "ok":
+                mon.violation("c01:mt:" + ev.f.get("stage", ev.status), "multi-threaded logins failed: %s" % str(ev.f)[:300], rp)
+            else:
+                for k, (t, d) in enumerate(parse_transcripts(ev, 16)):
+                    judge_transcript(d, mon, "c01", with_model=(k % 16 == 0), replay=rp)
+                    mon.count("multi_threaded_logins")
+                mon.cell(("mt", idx))
         # volume with real randomness, plus boundary injections
         for k in range(n_random):
             r = rnd.random()
